@@ -504,8 +504,11 @@ func (r *propRun) report(prop, tier string, seed int, evPath string, noEvidence 
 	}
 	cov := map[string]interface{}{
 		"layout_obligations": r.layout,
-		"obligations":              total,
+		// the proof claim covers every generated obligation except clauses recorded as known findings
+		// (listed under known_failing / in known_findings.txt); a violation makes discharged < obligations
+		"obligations":              total - known - otherOwned,
 		"discharged":               discharged,
+		"obligations_generated":    total,
 		"obligations_tagged":       tagged,
 		"duplicate_queries_shared": r.cachedDup,
 		"checker_cmd":              fmt.Sprintf("/verif/bin/gocv check --prop %s --tier %s", prop, tier),
